@@ -25,6 +25,7 @@ func TestMakeReplays(t *testing.T) {
 	}
 	sm := func(k int) uint32 { return uint32(k) << bSourcemap }
 	write("trunc-utf8-sourcescontent", "transform", "finding #9: hangs in QuoteForJSON until helpers.DecodeWTF8Rune advances over a truncated sequence", mkTCase(sm(1), []byte("x=1//\xe0"), nil))
+	write("trunc-utf8-css-local-name", "transform", "finding #9, second route: a local CSS name that ends in a truncated sequence is quoted for the `names` of the source map (found by the quick tier, seed 1)", mkTCase(5|sm(2)|1<<bNoSrcCont, []byte(".b\xc0 { color: blue }"), nil))
 	write("hazard-trunc-utf8-no-sourcescontent", "transform", "the same input without sourcesContent returns", mkTCase(sm(1)|1<<bNoSrcCont, []byte("x=1//\xe0"), nil))
 	write("hazard-invalid-utf8-middle", "transform", "invalid UTF-8 in the middle with sourcesContent returns", mkTCase(sm(1), []byte("x=1//\xe0\xfd\nlet y = '\xff\xc0\x80\xed\xa0\x80'"), nil))
 	write("hazard-nul-bytes", "transform", "", mkTCase(2|1<<bMinSyntax, []byte("let \x00x = `\x00${\x00}`\x00"), nil))
